@@ -1,6 +1,7 @@
 package rest
 
 import (
+	"errors"
 	"net/http"
 	"sync"
 	"time"
@@ -60,8 +61,21 @@ func (ml *msgListenerV1) Receive(msg event.MessageMetadata) error {
 		// Did not match the watched mailbox name.
 		return nil
 	}
-	ml.c <- msg
-	return nil
+	return ml.enqueue(msg)
+}
+
+// errListenerFullV1 is returned to the hub, which then drops this listener, when the client does not
+// keep up: the hub goroutine must never block on a single slow listener.
+var errListenerFullV1 = errors.New("WebSocket listener queue is full")
+
+// enqueue queues an event for the websocket writer without blocking.
+func (ml *msgListenerV1) enqueue(msg event.MessageMetadata) error {
+	select {
+	case ml.c <- msg:
+		return nil
+	default:
+		return errListenerFullV1
+	}
 }
 
 // Delete handles a deleted message.
